@@ -468,11 +468,24 @@ def alphabet(full=True):
     return ops
 
 
+# the operations that change structure or bookkeeping: middle and last
+# operation of the 3-operation programs (57*19*19 programs)
+CORE = (1, 2, 4, 7, 8, 11, 13, 14, 21, 23, 24, 26, 27, 30, 35, 36, 38, 40,
+        56)
+
+
 def programs(spec):
     """spec = (init key, n, depth, first-op slice)"""
     key, n, depth, sl = spec
     alpha = alphabet()
     firsts = alpha[sl[0]:sl[1]] if sl else alpha
+    if depth == 3:
+        core = [alpha[i] for i in CORE]
+        for f in firsts:
+            for g in core:
+                for h in core:
+                    yield (key, n, [f, g, h])
+        return
     if depth == 1:
         for f in firsts:
             yield (key, n, [f])
@@ -856,7 +869,7 @@ def main():
              ("vf.props.c06", "unit_carray_conformance",
               dict(rounds=300 if t == "quick" else 3000))]
     na = len(alphabet())
-    dl = 600 if t == "quick" else 3000
+    dl = 600 if t == "quick" else 1300
     singles = [("x", 0), ("x", 1), ("x", 3), ("xAm", 0), ("xAm", 2),
                ("xAm", 3), ("types", 2), ("notags", 2)]
     for key, n in singles:
@@ -871,15 +884,17 @@ def main():
                           dict(key=key, n=n, depth=2, sl=(a, a + step),
                                deadline_s=dl)))
     if t != "quick":
-        for a in range(0, na):
+        for a in range(0, na, 2):
             units.append(("vf.props.c06", "unit_programs",
-                          dict(key="xAm", n=2, depth=3, sl=(a, a + 1),
+                          dict(key="xAm", n=2, depth=3, sl=(a, a + 2),
                                deadline_s=dl)))
     rep.bounds = dict(
         particles="<= 3 initially (<= 5 after additions)",
         initial_arrays=sorted(INITS), operations=na,
         program_length="1 (all initial arrays), 2 (%s)%s" % (
-            pairs, ", 3 (xAm n=2)" if t != "quick" else ""),
+            pairs, ", 3 (xAm n=2; 2nd and 3rd call from %d "
+            "structure-changing operations)" % len(CORE)
+            if t != "quick" else ""),
         values="uninterpreted reals / ints; tags symbolic in {0,1,2}",
         property_types="double, float, int, long, unsigned int; strides 1, 2")
     rep.assumptions = [
